@@ -63,6 +63,11 @@ fn pick_target_sets(t: &T, rng: &mut Rng) -> Vec<HashSet<D32>> {
     } else {
         out.push(HashSet::new());
         out.push([t.digest].into_iter().collect());
+        // the deepest element, alone and together with a shallow one
+        if let Some((_, n)) = t.flatten().iter().max_by_key(|(p, _)| p.len()) {
+            out.push([n.digest].into_iter().collect());
+            out.push([n.digest, t.children.last().map(|c| c.digest).unwrap_or(n.digest)].into_iter().collect());
+        }
         for _ in 0..5 {
             let k = rng.range(1, 4);
             out.push((0..k).map(|_| *rng.pick(&uniq)).collect());
@@ -129,6 +134,43 @@ pub fn run(ctx: &mut Ctx) {
         let (_m, e0) = universe(&mut rng, cfg, case);
         let key = fresh_key(&mut rng);
         let e = if rng.chance(1, 4) { gen::obscure_random(&e0, &mut rng, 2, &key) } else { e0 };
+        // every 150th case: a deep chain (the core sits 129..300 levels down)
+        let e = if case % 150 == 11 {
+            ctx.count("deep_chain_inputs");
+            let adv = gen::adversarial_models();
+            let deep: Vec<&(String, gen::M)> = adv.iter().filter(|(l, _)| l.starts_with("deep-chain")).collect();
+            gen::build(&deep[(case / 150) as usize % deep.len()].1, gen::Route::Plain, &mut rng)
+        } else {
+            e
+        };
+        // a sixth of the cases: one occurrence of a repeated element elided, the other occurrences in full
+        let e = if case % 6 == 1 && !tree_of(&e).has_obscured() {
+            let t0 = tree_of(&e);
+            let flat0 = t0.flatten();
+            let dup: Vec<&(Path, &T)> = flat0.iter().filter(|(p, n)| !p.is_empty() && flat0.iter().filter(|(_, m)| m.digest == n.digest).count() >= 2).collect();
+            if let Some((path, _)) = dup.first() {
+                let mut t2 = t0.clone();
+                {
+                    let mut cur = &mut t2;
+                    for e2 in path.iter() {
+                        let idx = cur.edges().iter().position(|x| x == e2).unwrap();
+                        cur = &mut cur.children[idx];
+                    }
+                    *cur = T { kind: Kind::Elided, digest: cur.digest, leaf: None, kv: None, children: vec![] };
+                }
+                match Envelope::try_from_cbor_data(gen::tree_bytes(&t2)) {
+                    Ok(v) => {
+                        ctx.count("inputs_with_one_occurrence_elided");
+                        v
+                    }
+                    Err(_) => e,
+                }
+            } else {
+                e
+            }
+        } else {
+            e
+        };
         let t = tree_of(&e);
         if t.count() > 1 {
             ctx.nontrivial(t.shape_hash());
